@@ -2,7 +2,10 @@
 (* Trace specification for C20.  One deliver event per executed scenario: the   *)
 (* scenario (from MC_C20), what compile_to_string() says about the sources      *)
 (* (compiled), and what was found after compile() / the command-line tool ran   *)
-(* in a child process.  Delivery.tla says what must be found.                   *)
+(* in a child process.  Delivery.tla says what must be found.  One builder event *)
+(* per call sequence of MC_Builder replayed through the typestate API: the       *)
+(* sequence is folded through Builder.tla, which says which sources the final    *)
+(* call must work on and where the text must be.                                 *)
 EXTENDS TraceLib, FiniteSets
 
 VARIABLES l
@@ -37,9 +40,29 @@ Macro(e, i) ==
     ELSE IF e.expands /\ ~e.same_items THEN Report(i, "MISMATCH", "asn1! expansion differs from the library's bindings: " \o e.detail)
     ELSE TRUE
 
+\* the constant-level part of Builder.tla: the call sequence of the event is folded through the specification's builder
+B == INSTANCE Builder WITH NSrc <- 3, MaxCalls <- 9, b <- "", calls <- <<>>, final <- ""
+ModNames == <<"BldA", "BldB", "BldC">>
+Builder(e, i) ==
+    LET r == B!Run(B!Fresh, e.calls)
+        exp == [k \in 1..Len(r.sources) |-> ModNames[r.sources[k].id]]
+        toFile == e.final = "compile" /\ r.out \in {"path_file", "mode_file", "mode_dir"}
+    IN
+    IF r.state = "illegal" \/ ~B!Legal(r, [op |-> e.final]) THEN Report(i, "MISMATCH", "harness: the call sequence is not a behaviour of Builder.tla")
+    ELSE IF e.illegal # "" THEN Report(i, "MISMATCH", "a call that the specification allows does not exist in the builder's typestate: " \o e.illegal)
+    ELSE IF e.state # r.state THEN Report(i, "MISMATCH", "the builder is in typestate " \o e.state \o " after the calls, the specification says " \o r.state)
+    ELSE IF ~e.ref_ok THEN Report(i, "SKIP", "the reference compilation of the three modules fails")
+    ELSE IF e.lexed # exp THEN Report(i, "MISMATCH", "compilation works on other sources than the ones added (lost, duplicated or reordered by an add_* call)")
+    ELSE IF e.result # "ok" THEN Report(i, "MISMATCH", "the final call fails although the same sources compile: " \o e.detail)
+    ELSE IF (toFile \/ e.final = "compile_to_string") /\ ~e.has_text THEN Report(i, "MISMATCH", "no text was delivered")
+    ELSE IF (toFile \/ e.final = "compile_to_string") /\ ~e.same_text THEN Report(i, "MISMATCH", "the delivered text is not what compile_to_string() returns for the same sources")
+    ELSE IF e.files_written # (IF toFile THEN 1 ELSE 0) THEN Report(i, "MISMATCH", "files written: " \o ToString(e.files_written))
+    ELSE IF ~e.same_warnings THEN Report(i, "MISMATCH", "other warnings than compile_to_string() returns for the same sources")
+    ELSE TRUE
+
 Init == l = 1
 Step == /\ l <= Len(Rec)
-        /\ LET e == Rec[l] IN IF e.ev = "deliver" THEN Deliver(e, l) ELSE Macro(e, l)
+        /\ LET e == Rec[l] IN IF e.ev = "deliver" THEN Deliver(e, l) ELSE IF e.ev = "builder" THEN Builder(e, l) ELSE Macro(e, l)
         /\ l' = l + 1
 Spec == Init /\ [][Step]_l
 Accepted == AllConsumed
